@@ -34,6 +34,42 @@ def _site(prog, method, kind=None, table=None):
     return out
 
 
+def _one_statement(ss):
+    """several call sites that execute the same statement text count as one statement (-> the first site), else None"""
+    if ss and len({" ".join(s.stmt.raw.split()) for s in ss}) == 1:
+        return ss[0]
+    return None
+
+
+def keyset_rebinding(prog, rep, ss, rule="PRED"):
+    """a value bound to a window placeholder that is re-bound, inside the reader, from a fetched row: the statement is re-run
+    page by page with the edge moved to the last row seen (keyset pagination). That enumerates every row once only when the
+    key it pages by is unique; starttime / endtime are not (no UNIQUE index; equal start instants are ordinary), so rows that
+    share the boundary value are skipped (strict step) or repeated (inclusive step)"""
+    bad = False
+    for s in ss:
+        fi = s.fi
+        fetched = set()
+        for n in walk_own(fi.node):
+            if isinstance(n, ast.Assign) and len(n.targets) == 1 and isinstance(n.targets[0], ast.Name) and any(isinstance(c, ast.Call) and isinstance(c.func, ast.Attribute) and c.func.attr in ("execute", "fetchall", "fetchmany", "fetchone") for c in ast.walk(n.value)):
+                fetched.add(n.targets[0].id)
+            if isinstance(n, ast.For) and any(isinstance(c, ast.Name) and c.id in fetched for c in ast.walk(n.iter)):
+                fetched |= {x.id for x in ast.walk(n.target) if isinstance(x, ast.Name)}
+        for c in s.stmt.where:
+            col, other = (c.left, c.right) if c.left.kind == "col" else (c.right, c.left)
+            if col.kind != "col" or col.name not in ("starttime", "endtime") or other.kind != "param" or not s.bindings or other.index >= len(s.bindings):
+                continue
+            b = s.bindings[other.index]
+            if not isinstance(b, ast.Name):
+                continue
+            for d in local_defs(fi, b.id):
+                v = getattr(d, "value", None)
+                if v is not None and any(isinstance(x, ast.Name) and x.id in fetched for x in ast.walk(v)):
+                    rep.violation(rule, fi.short, f"re-binding of ?{other.index}", f"`{b.id}`, bound to `{c.text()}`, is re-bound from a fetched row (`{norm(d)[:70]}`) and the statement is run again: the read pages by {col.name}, which is not unique — events that share the boundary value with the last row of a page are skipped or returned twice", fi.loc(d))
+                    bad = True
+    return bad
+
+
 # ---------------------------------------------------------------------------
 # sort descriptors for list expressions (memory backend)
 
@@ -736,6 +772,8 @@ def pred_sqlite(prog, rep, rule="PRED", scale_expected=1000000):
     for m in ("get_events", "get_eventcount"):
         ss = _site(prog, m, "select", "events")
         fn = f"SqliteStorage.{m}"
+        if len(ss) > 1 and keyset_rebinding(prog, rep, ss, rule):
+            continue
         if len(ss) != 1:
             rep.undecided(rule, fn, "SELECT events", f"{len(ss)} SELECT statements")
             continue
@@ -859,7 +897,11 @@ def pred_peewee(prog, rep, rule="PRED"):
         # the result of _where_range must be what is executed / counted
         if ok:
             asg = parent(cs[0])
-            kept = isinstance(asg, ast.Assign) and isinstance(asg.targets[0], ast.Name) and any(isinstance(x, ast.Name) and x.id == asg.targets[0].id and isinstance(x.ctx, ast.Load) and x.lineno > asg.lineno for x in walk_own(f2.node))
+            kept = False
+            if isinstance(asg, ast.Assign) and isinstance(asg.targets[0], ast.Name):
+                g2 = cfg_of(f2)
+                after = g2.reach_avoiding([g2.node_of(asg)])
+                kept = any(isinstance(x, ast.Name) and x.id == asg.targets[0].id and isinstance(x.ctx, ast.Load) for nid in after if g2.nodes[nid].ast is not None and g2.nodes[nid].ast is not asg for x in ast.walk(g2.nodes[nid].ast if not isinstance(g2.nodes[nid].ast, (ast.If, ast.While, ast.For)) else (g2.nodes[nid].ast.test if not isinstance(g2.nodes[nid].ast, ast.For) else g2.nodes[nid].ast.iter)))
             kept = kept or (isinstance(asg, ast.Attribute) and asg.attr in ("count", "execute", "get")) or isinstance(asg, ast.Return)
             rep.check(kept, rule, f2.short, "q = self._where_range(...)", "refined query kept", "the refined query is discarded", f2.loc(cs[0]))
     return {"_where_range": found}
